@@ -321,6 +321,40 @@ def stream_doc(ctx, res, n):
                 res.disagree("C04.yaml.wrap", case, impl=[wrapped, un, un2], model=[a, b, c])
 
 
+def big_and_shared_stream(ctx, res):
+    """trees the random generator never draws: hundreds of maps with the same keys and many distinct strings (a serialiser that
+    memoises objects needs its long reference forms), whole numbers of hundreds of digits (where the format has no limit), and ONE
+    container object reachable from two places (a writer may use anchors / references; a reader has to take them back)"""
+    from cincoconfig.core import ConfigFormat
+    shared_list, shared_map, shared_empty = [1, "two", [3]], {"k": [1, 2], "z": None}, []
+    trees = [
+        ("many-maps-same-keys", {"servers": [{"name": "s%d" % i, "host": "h%d.example" % i, "port": 1000 + i, "tags": ["t%d" % (i % 7), "common"]} for i in range(150)],
+                                 "replicas": [{"name": "s%d" % i, "host": "h%d.example" % i, "port": 2000 + i, "tags": ["common"]} for i in range(150)]}, None),
+        ("many-distinct-strings-twice", {"first": ["str-%d" % i for i in range(400)], "second": ["str-%d" % i for i in range(400)]}, None),
+        ("huge-integers", {"big": 2 ** 2050, "neg": -(2 ** 2050) - 1, "list": [2 ** 70, -(2 ** 64), 10 ** 600]}, ("json", "yaml", "xml", "pickle")),
+        ("int64-endpoints", {"low": -(2 ** 63), "high": 2 ** 63 - 1, "jobs": [{"offsets": [0, -1, -(2 ** 63)]}]}, None),
+        ("one-list-object-twice", {"a": {"items": shared_list}, "b": {"items": shared_list}, "c": [shared_list, shared_list]}, None),
+        ("one-map-object-twice", {"rows": [shared_map, shared_map], "again": shared_map}, None),
+        ("one-empty-list-object-twice", {"x": shared_empty, "y": shared_empty, "z": {"w": shared_empty}}, None),
+    ]
+    for label, t, only in trees:
+        for fmt in ["json", "yaml", "bson", "xml", "pickle"]:
+            if only is not None and fmt not in only:
+                continue
+            for opts in OPTS[fmt][:2]:
+                case = {"stream": "big-and-shared", "fmt": fmt, "opts": opts, "tree": label}
+                res.case(json.dumps([label, fmt, opts]), kind="big-and-shared:" + fmt)
+                try:
+                    b = ConfigFormat.get(fmt, **opts).dumps(None, t)
+                    back = ConfigFormat.get(fmt, **opts).loads(None, b)
+                    again = ConfigFormat.get(fmt, **opts).loads(None, b)
+                except Exception as exc:  # noqa
+                    res.violate("C04:big-or-shared", "%s cannot round-trip a tree of its domain (%s): %s" % (fmt, label, type(exc).__name__), dict(case, error=str(exc)[:120]))
+                    continue
+                if canon_sorted(back) != canon_sorted(t) or canon_sorted(again) != canon_sorted(t):
+                    res.violate("C04:big-or-shared", "%s decodes to a different tree (%s)" % (fmt, label), case)
+
+
 def registry_check(ctx, res):
     from cincoconfig.core import ConfigFormat
     import cincoconfig.formats as F
@@ -340,6 +374,7 @@ def run(ctx):
     guard(res, "C04", stream_elem, ctx, res, ctx.n(600, 20000))
     guard(res, "C04", stream_doc, ctx, res, ctx.n(250, 8000))
     guard(res, "C04", registry_check, ctx, res)
+    guard(res, "C04", big_and_shared_stream, ctx, res)
     return res
 
 
